@@ -16,7 +16,8 @@ from koala import graph_utils
 
 DRIVERS = ("c02",)
 MODEL_TARGETS = ["Model/Lattice.vo", "Model/TableSpec.vo", "Model/Cache.vo", "Model/Queries.vo"]
-TARGETS = ["Proofs/TablesFacts.vo", "Proofs/SortFacts.vo", "Proofs/PlaqTablesFacts.vo", "Proofs/CacheFacts.vo", "Proofs/QueriesFacts.vo"]
+TARGETS = ["Proofs/TablesFacts.vo", "Proofs/SortFacts.vo", "Proofs/PlaqTablesFacts.vo", "Proofs/CacheFacts.vo", "Proofs/QueriesFacts.vo",
+           "Proofs/CycListFacts.vo", "Proofs/CyclicFacts.vo", "Proofs/SweepShapeFacts.vo"]
 LEVEL = "proof"
 TRUST = [
     "hand-written Gallina models coq/Model/Lattice.v (tables), coq/Model/Cache.v (cached_property state machine) and coq/Model/Queries.v (graph_utils helpers): modelled, not verified; tied to the code by the correspondence run (every table, every query, every access history, fresh and unpickled)",
@@ -59,7 +60,7 @@ def own_cases(tier):
         # single dangling edge crossing the boundary
         {"family": "raw", "positions": [[0.9, 0.5], [0.1, 0.55], [0.5, 0.1]], "edges": [[0, 1]], "crossing": [[1, 0]]},
     ]
-    for n in ([3, 5, 8, 12] if tier == "quick" else [3, 4, 5, 6, 7, 8, 9, 10, 11, 12, 13, 16]):
+    for n in ([3, 5, 8, 11, 12] if tier == "quick" else [3, 4, 5, 6, 7, 8, 9, 10, 11, 12, 13, 16]):
         b = {"family": "example", "name": "higher_coordination_number_example", "args": [n]}
         out.append({"family": "append_isolated", "base": b, "k": 1 + n % 3, "seed": n})
         out.append({"family": "dual", "base": b})
@@ -121,14 +122,10 @@ def full_report(lat, have_plaq=True):
     for v in range(lat.n_vertices):
         vs, es = graph_utils.vertex_neighbours(lat, v)
         r["q_vn"].append(([int(x) for x in vs], [int(x) for x in es]))
-        if len(es):
-            cv, ce = graph_utils.clockwise_about(v, lat)
-            r["q_cw"].append(([int(x) for x in cv], [int(x) for x in ce]))
-            r["q_ev"].append(np.asarray(graph_utils.get_edge_vectors(v, es, lat), dtype=float).reshape(-1, 2))
-        else:
-            r["q_cw"].append(([], []))
-            r["q_ev"].append(np.zeros((0, 2)))
-    r["q_cwe"] = [[int(x) for x in graph_utils.clockwise_edges_about(v, lat)] if len(r["q_vn"][v][1]) else [] for v in range(lat.n_vertices)]
+        cv, ce = graph_utils.clockwise_about(v, lat)       # also for isolated vertices (empty answers)
+        r["q_cw"].append(([int(x) for x in cv], [int(x) for x in ce]))
+        r["q_ev"].append(np.asarray(graph_utils.get_edge_vectors(v, es, lat), dtype=float).reshape(-1, 2))
+    r["q_cwe"] = [[int(x) for x in graph_utils.clockwise_edges_about(v, lat)] for v in range(lat.n_vertices)]
     r["q_en"] = [[int(x) for x in graph_utils.edge_neighbours(lat, e)] for e in range(lat.n_edges)]
     r["q_ap"] = []
     for i in range(len(lat.plaquettes) if have_plaq else 0):
@@ -382,6 +379,7 @@ def parse_model(d, S):
     c = Cursor(d["q_ev"]); m["q_ev"] = c.list(lambda: c.list(lambda: (c.z(), c.z())))
     m["pure"] = [parse_value(Cursor(d[f"pure{i}"])) for i in range(4)]
     m["hyp"] = (d["hyp"][0] == "1") if "hyp" in d else None
+    m["generic"] = int(d["generic"][0])
     if d["q_ap"][0] == "ERR":
         m["q_ap"] = None
     else:
@@ -607,6 +605,10 @@ def evaluate(ctx, cases, label, n_full=60, force_full=False):
                            ("lattices_without_plaquettes", st["npl"] == 0)):
             res.extra[name] = res.extra.get(name, 0) + int(bool(cond))
         res.extra["histories_run_on_impl"] = res.extra.get("histories_run_on_impl", 0) + st["hist"]
+        mm = it["model"]
+        res.extra["model_plaquette_lists_satisfying_plaq_list_ok"] = res.extra.get("model_plaquette_lists_satisfying_plaq_list_ok", 0) + int(mm["hyp"] is True)
+        res.extra["vertices_total"] = res.extra.get("vertices_total", 0) + st["nV"]
+        res.extra["vertices_satisfying_generic_at"] = res.extra.get("vertices_satisfying_generic_at", 0) + mm["generic"]
         for key_, what in r["violations"]:
             res.violation(key_, what, c)
         for what in r["kmis"]:
